@@ -4,6 +4,9 @@
 (*   [id   : STRING,                                                       *)
 (*    decl : Seq(member)            the declaration printed by Gen_Dispatch*)
 (*    first : member                the response the document lists first  *)
+(*    mode : "inline"|"ref"|"shared" how the responses are written down    *)
+(*                                  (DispatchCore!Modes; the model's       *)
+(*                                  outcome does not depend on it)         *)
 (*    core : STRING                 dotted name of the package's core      *)
 (*    ev   : Seq(outcome event)]                                           *)
 (* An outcome event is what the CALLER of the generated method saw for one *)
@@ -94,7 +97,7 @@ Fin ==
          d == ToSet(t.decl)
      IN PrintT("VERDICT " \o ToJson([
             id         |-> t.id,
-            wellformed |-> WellFormed(d) /\ t.first \in d
+            wellformed |-> WellFormed(d) /\ t.first \in d /\ t.mode \in ToSet(Modes)
                            /\ \A i \in 1..Len(t.ev) : t.ev[i].status \in 100..599 /\ t.ev[i].transport \in {"bundled", "pass"} /\ t.ev[i].body \in Bodies,
             importable_model |-> Importable("as_is", d),
             primary_model    |-> Primary(d, t.first),
